@@ -3,4 +3,6 @@ MODULES = [
     'contracts.c_memlayout',
     'contracts.c_memory',
     'contracts.c_data',
+    'contracts.c_print',
+    'contracts.c_input',
 ]
